@@ -1,6 +1,7 @@
 package main
 
 import (
+	"fmt"
 	"go/token"
 	"go/types"
 	"strings"
@@ -16,6 +17,8 @@ var round2Docs = map[string]map[string]string{
 	"C24": {"C24.R5": "pairing: popped stream-expiry item ⇔ index entry", "C24.R6": "pairing: state entry delete ⇒ deadline record delete"},
 	"C15": {"C15.R6": "error discipline: a child's validation error is returned before the next child"},
 	"C14": {"C14.R6": "K2: the medium's delta base does not depend on the publication's delta flag"},
+	"C31": {"C31.R3": "K9: base64 decode destination holds the decoded length of the source"},
+	"C29": {"C29.R5": "K9: a caller-supplied frame reader holds a whole control frame payload"},
 	"C22": {"C22.R4": "K4 who-may-call: the raw map channel options resolver"},
 	"C02": {"C02.R7": "paired fields: (Offset, Epoch) copied from one source"},
 	"C16": {"C16.R4": "K1: prepared data complete before it is copied into the caches; marker used whenever wasFiltered"},
@@ -49,11 +52,171 @@ func hookRound2(c *Ctx, prop string) {
 		runBaseFollowsEveryPublication(c)
 	case "C16":
 		runPreparedDataComplete(c)
+	case "C31":
+		runBase64DecodeBuffer(c)
+	case "C29":
+		runReaderHoldsControlFrame(c)
 	case "C22":
 		runResolverOnlyThroughValidate(c)
 	case "C02":
 		runPositionPair(c)
 	}
+}
+
+// runBase64DecodeBuffer (C31.R3): (*base64.Encoding).Decode panics when dst is shorter than what it
+// writes — up to DecodedLen(len(src)) bytes. In the websocket package every Decode destination must be
+// allocated with that length (or a constant at least as large as DecodedLen of the source length the
+// surrounding guard fixes). The handshake key comes straight from the request header.
+func runBase64DecodeBuffer(c *Ctx) {
+	w := c.W
+	n := 0
+	for _, f := range w.AllFuncs {
+		if !w.inModule(f) || !strings.Contains(FuncName(f), "internal/websocket") || strings.HasSuffix(w.Pos(f.Pos()), "_test.go") {
+			continue
+		}
+		EachInstr(f, func(in ssa.Instruction) {
+			call, ok := in.(*ssa.Call)
+			if !ok {
+				return
+			}
+			cal := call.Call.StaticCallee()
+			if cal == nil || cal.Name() != "Decode" || cal.Pkg == nil || cal.Pkg.Pkg.Path() != "encoding/base64" || len(call.Call.Args) != 3 {
+				return
+			}
+			n++
+			dst, src := call.Call.Args[1], call.Call.Args[2]
+			okLen, detail := false, "destination "+D(dst)
+			if ms, isMS := dst.(*ssa.MakeSlice); isMS {
+				// make([]byte, enc.DecodedLen(len(x))) with x the decoded source
+				if lc, isCall := ms.Len.(*ssa.Call); isCall {
+					if lf := lc.Call.StaticCallee(); lf != nil && lf.Name() == "DecodedLen" && len(lc.Call.Args) == 2 {
+						if strings.Contains(D(src), strings.TrimSuffix(strings.TrimPrefix(D(lc.Call.Args[1]), "len("), ")")) {
+							okLen = true
+						}
+					}
+				}
+				if L, isC := constIntOf(ms.Len); isC {
+					// constant destination: the source length must be fixed by an equality guard
+					srcLen := int64(-1)
+					for _, g := range Guards(in) {
+						b, ok := g.Cond.(*ssa.BinOp)
+						if !ok || !strings.HasPrefix(D(b.X), "len(") {
+							continue
+						}
+						k, isK := constIntOf(b.Y)
+						if isK && ((b.Op == token.EQL && g.Pol) || (b.Op == token.NEQ && !g.Pol)) {
+							srcLen = k
+						}
+					}
+					need := int64(-1)
+					if srcLen >= 0 {
+						need = srcLen / 4 * 3 // StdEncoding.DecodedLen for padded encodings
+						if srcLen%4 != 0 {
+							need = srcLen*6/8 + 3
+						}
+					}
+					okLen = need >= 0 && L >= need
+					detail = fmt.Sprintf("destination has %d bytes, a source of %d characters can decode to %d", L, srcLen, need)
+				}
+			}
+			c.Check("C31.R3", call, "base64 Decode destination is as long as the source can decode to", okLen,
+				detail+": Decode panics on a short destination; a Sec-WebSocket-Key of 24 characters without padding decodes to 18 bytes, so the handshake panics instead of answering 400")
+		})
+	}
+	c.Anchor("C31.R3", "base64 Decode calls in the websocket package", n >= 1)
+}
+
+// runReaderHoldsControlFrame (C29.R5): Conn.read is Peek(n) + Discard, and Peek needs a buffer of at
+// least n bytes; the largest read is a control frame payload (maxControlFramePayloadSize). newConn
+// enforces that minimum for the reader it allocates; a reader handed in by an upgrader must satisfy it
+// too: created with a constant size ≥ that minimum, or accepted only behind a size test.
+func runReaderHoldsControlFrame(c *Ctx) {
+	w := c.W
+	nc := w.Func("internal/websocket", "newConn")
+	minSize, okC := w.ConstInt("internal/websocket", "maxControlFramePayloadSize")
+	if nc == nil || !c.Anchor("C29.R5", "websocket.maxControlFramePayloadSize", okC) {
+		return
+	}
+	// Conn.read really is Peek-based (otherwise the rule is moot)
+	rd := w.Func("internal/websocket", "(*Conn).read")
+	peek := false
+	if rd != nil {
+		EachInstr(rd, func(in ssa.Instruction) {
+			if ci := asCall(in); ci != nil {
+				if cal := ci.Common().StaticCallee(); cal != nil && cal.Name() == "Peek" {
+					peek = true
+				}
+			}
+		})
+	}
+	if !peek {
+		c.CheckAt("C29.R5", "(*websocket.Conn).read no longer peeks: reader size is not constrained", "internal/websocket/conn.go", true, "")
+		return
+	}
+	n := 0
+	for _, ci := range w.Callers(nc) {
+		args := ci.Common().Args
+		if len(args) < 6 || strings.HasSuffix(w.InstrPos(ci), "_test.go") {
+			continue
+		}
+		br := args[5]
+		if isNilConst(br) {
+			continue // newConn allocates the reader itself with the enforced minimum
+		}
+		n++
+		var sizes []string
+		ok := true
+		var visit func(v ssa.Value, depth int)
+		seen := map[ssa.Value]bool{}
+		visit = func(v ssa.Value, depth int) {
+			if v == nil || seen[v] || depth > 6 {
+				return
+			}
+			seen[v] = true
+			switch x := v.(type) {
+			case *ssa.Const:
+				// nil edge of a phi: newConn allocates
+			case *ssa.Phi:
+				for _, e := range x.Edges {
+					visit(e, depth+1)
+				}
+			case *ssa.Call:
+				cal := x.Call.StaticCallee()
+				if cal != nil && cal.Name() == "NewReaderSize" && len(x.Call.Args) == 2 {
+					k, isK := constIntOf(x.Call.Args[1])
+					sizes = append(sizes, fmt.Sprintf("NewReaderSize(%d)", k))
+					if !isK || k < minSize {
+						ok = false
+					}
+					return
+				}
+				ok = false
+				sizes = append(sizes, "call "+D(x))
+			case *ssa.UnOp:
+				// a reader taken from elsewhere (the hijacked connection's): must be behind a Size() test
+				// (the load itself sits in the branch that decided to reuse the reader)
+				guarded := Guarded(x, func(g Guard) bool {
+					b, ok := g.Cond.(*ssa.BinOp)
+					if !ok || !g.Pol || (b.Op != token.GTR && b.Op != token.GEQ) || !strings.Contains(D(b.X), "Size(") {
+						return false
+					}
+					k, isK := constIntOf(b.Y)
+					return isK && k >= minSize
+				})
+				sizes = append(sizes, "existing reader behind a Size() test")
+				if !guarded {
+					ok = false
+				}
+			default:
+				ok = false
+				sizes = append(sizes, D(v))
+			}
+		}
+		visit(br, 0)
+		c.Check("C29.R5", ci, "frame reader passed to newConn holds a whole control frame payload", ok,
+			fmt.Sprintf("reader from %v, minimum %d: Conn.read uses Peek(n), which fails with \"bufio: buffer full\" for n above the buffer size — a close, ping or pong with a longer payload kills the connection although RFC 6455 allows 125 bytes", sizes, minSize))
+	}
+	c.Anchor("C29.R5", "newConn call sites with a caller-supplied reader", n >= 2)
 }
 
 // heapOp: in is heap.<op>(&recv.<queue>, …).
